@@ -176,14 +176,9 @@ func projectModule(raw []byte, in *interner) (string, error) {
 					pcs = append(pcs, paramClass(gm(prm, "type")))
 				}
 			}
-			// top-level return statements: payload contains "<:" but not " <: "
+			// return statements in source order (syslwrapper.ReturnStatements): (nested?, payload contains "<:" but not " <: ")
 			var rets []string
-			for _, st := range gl(e, "stmt") {
-				if rt := gm(st, "ret"); rt != nil {
-					pl := gs(rt, "payload")
-					rets = append(rets, common.GBool(strings.Contains(pl, "<:") && len(strings.Split(pl, " <: ")) < 2))
-				}
-			}
+			collectRets(gl(e, "stmt"), false, &rets)
 			epTerms = append(epTerms, fmt.Sprintf("EP %s %d %s %s %s %s %s %s", in.id(en), len(strings.Split(en, " ")), common.GList(ct),
 				in.list(acts), in.list(attrList(attrs, "passthrough")), in.list(attrList(attrs, "exclude")), common.GList(pcs), common.GList(rets)))
 		}
@@ -197,10 +192,16 @@ func projectModule(raw []byte, in *interner) (string, error) {
 				ad := gm(rel, "attrDefs")
 				for _, fn := range sortedKeys(ad) {
 					f := gm(ad, fn)
+					auto := false
+					for _, pt := range attrList(gm(f, "attrs"), "patterns") {
+						if strings.EqualFold(pt, "autoinc") {
+							auto = true
+						}
+					}
 					if tr := gm(f, "typeRef"); tr != nil {
-						fts = append(fts, fmt.Sprintf("FD %s (Some %s)", in.id(fn), in.list(strs(gl(gm(tr, "ref"), "path")))))
+						fts = append(fts, fmt.Sprintf("FD %s (Some %s) %s", in.id(fn), in.list(strs(gl(gm(tr, "ref"), "path"))), common.GBool(auto)))
 					} else {
-						fts = append(fts, fmt.Sprintf("FD %s None", in.id(fn)))
+						fts = append(fts, fmt.Sprintf("FD %s None %s", in.id(fn), common.GBool(auto)))
 					}
 				}
 			}
@@ -256,6 +257,31 @@ func cmdTerm(r *Run, in *interner) string {
 		return "(Some " + in.id(v) + ")"
 	}
 	switch r.Class {
+	case "sd":
+		// the plain form only: one start endpoint, no blackboxes, no grouping, default formats
+		if len(av) == 6 && av[1] == "-o" && av[3] == "-s" {
+			if parts := strings.SplitN(av[4], " <- ", 2); len(parts) == 2 {
+				return fmt.Sprintf("CSd %s %s", in.id(parts[0]), in.id(parts[1]))
+			}
+		}
+	case "template":
+		var names []string
+		for i, x := range av {
+			if x == "--app-name" && i+1 < len(av) {
+				names = append(names, av[i+1])
+			}
+		}
+		return fmt.Sprintf("CTemplate %s %s", in.list(names), common.GBool(len(names) == 0))
+	case "test-rig":
+		var vars map[string]interface{}
+		if json.Unmarshal([]byte(r.Files["rig.json"]), &vars) == nil {
+			var svcs []string
+			for k := range vars {
+				svcs = append(svcs, k)
+			}
+			sort.Strings(svcs)
+			return "CTestRig " + in.list(svcs)
+		}
 	case "diagram-sequence":
 		a, okA := flagVal(av, "-a")
 		e, okE := flagVal(av, "-e")
@@ -339,3 +365,67 @@ func (w *caseWriter) addModel(m *SModel, text string, runs []*Run, obs map[*Run]
 }
 
 func (w *caseWriter) close() { w.cs.Close() }
+
+// addDelta: one case per direction of a delta pair: (module of the version given second, [(CDbDelta <module of the first> apps, class)])
+func (w *caseWriter) addDelta(p deltaPair, runs []*Run, obs map[*Run]Obs) {
+	if len(runs) != 4 || runs[0].dir == "" {
+		return
+	}
+	rawOld, _ := os.ReadFile(filepath.Join(runs[0].dir, "out0/old.json"))
+	rawNew, _ := os.ReadFile(filepath.Join(runs[1].dir, "out1/new.json"))
+	if len(rawOld) == 0 || len(rawNew) == 0 {
+		w.c.Hist("projection:delta-no-json")
+		return
+	}
+	for dirn, r := range runs[2:] {
+		in := &interner{ids: map[string]int{}}
+		first, second := rawOld, rawNew
+		if dirn == 1 {
+			first, second = rawNew, rawOld
+		}
+		m1, err1 := projectModule(first, in)
+		m2, err2 := projectModule(second, in)
+		if err1 != nil || err2 != nil {
+			w.c.Hist("projection:bad-json")
+			continue
+		}
+		a, _ := flagVal(r.Argv, "-a")
+		o := obs[r]
+		cls := "OErr"
+		switch {
+		case o.Crash || o.Timeout || o.CPUHang:
+			cls = "OCrash"
+		case o.RC == 0:
+			cls = "OOk"
+		}
+		w.c.Hist("modelled:CDbDelta")
+		w.cs.Add(fmt.Sprintf("(%s,\n   %s,\n   [(CDbDelta %s %s, %s)])", m2, common.GBool(w.rend), m1, in.list(strings.Split(a, ",")), cls),
+			map[string]interface{}{"shape": p.shape, "old": r.Files[r.Argv[len(r.Argv)-2]], "new": r.Files[r.Argv[len(r.Argv)-1]], "observed": strings.Join(r.Argv, " ") + " => " + cls})
+	}
+}
+
+// collectRets: the return statements of a statement list in the order of syslwrapper.ReturnStatements, as (nested, bad)
+func collectRets(stmts []interface{}, nested bool, out *[]string) {
+	for _, s := range stmts {
+		st, _ := s.(jm)
+		switch {
+		case st["ret"] != nil:
+			pl := gs(gm(st, "ret"), "payload")
+			*out = append(*out, fmt.Sprintf("(%s, %s)", common.GBool(nested), common.GBool(strings.Contains(pl, "<:") && len(strings.Split(pl, " <: ")) < 2)))
+		case st["cond"] != nil:
+			collectRets(gl(gm(st, "cond"), "stmt"), true, out)
+		case st["loop"] != nil:
+			collectRets(gl(gm(st, "loop"), "stmt"), true, out)
+		case st["loopN"] != nil:
+			collectRets(gl(gm(st, "loopN"), "stmt"), true, out)
+		case st["foreach"] != nil:
+			collectRets(gl(gm(st, "foreach"), "stmt"), true, out)
+		case st["alt"] != nil:
+			for _, ch := range gl(gm(st, "alt"), "choice") {
+				collectRets(gl(ch, "stmt"), true, out)
+			}
+		case st["group"] != nil:
+			collectRets(gl(gm(st, "group"), "stmt"), true, out)
+		}
+	}
+}
